@@ -144,8 +144,11 @@ class Session:
         self.saturated = random.Random("sat-" + self.sid).random() < 0.34
 
     def seed_value(self, k):
-        """abstract seed -> concrete seed (injective)"""
-        return 900001 + 7919 * k + (int(common.sha(self.sid.encode()), 16) % 1000) * 100003
+        """abstract seed -> concrete seed (injective); "all seeds": 0 is a seed like any other"""
+        base = int(common.sha(self.sid.encode()), 16) % 1000
+        if base % 4 == 0 and k == 1:
+            return 0
+        return 900001 + 7919 * k + base * 100003
 
     def rnd(self, op):
         return random.Random("op-" + self.sid + json.dumps(op, sort_keys=True))
@@ -180,6 +183,10 @@ class Ctx:
         self.sess = sess
         self.state = None
         self.saved = None
+        # callback objects a script builds at its top, BEFORE it seeds (whatever they do at construction must not
+        # tie later seeded runs to the state the generator had then)
+        from qucumber.callbacks import ObservableEvaluator
+        self.obs_eval = ObservableEvaluator(1, [SigmaZ()], num_samples=20, num_chains=5, burn_in=2, steps=1)
 
 
 def _target(sess):
@@ -385,7 +392,11 @@ def execute(ctx, op, seed_of=None):
                 ev = MetricEvaluator(1, {"NLL": ts.NLL}, **mkw)
                 es = EarlyStopping(1, 1e6, 1, ev, "NLL", criterion=r.choice(["relative", "absolute"]))
             else:
-                ev = ObservableEvaluator(1, [SigmaZ()], num_samples=20, num_chains=5, burn_in=2, steps=1)
+                if r.random() < 0.5:
+                    ev = ObservableEvaluator(1, [SigmaZ()], num_samples=20, num_chains=5, burn_in=2, steps=1)
+                else:
+                    ev = ctx.obs_eval                    # built before the first Seed of this run
+                    ev.clear_history()
                 es = EarlyStopping(1, 1e6, 1, ev, "SigmaZ", criterion="variance")
             kw["callbacks"] = [ev, es]
             kw["epochs"] = op["e"] + 1          # >= 2: the stopper may act from its second evaluation on
